@@ -311,12 +311,13 @@ type FrOfPmTreeHasher = FrOf<PmTreeHasher>;
 impl PmTree {
     fn remove_indices(&mut self, indices: &[usize]) -> Result<()> {
         let start = indices[0];
-        let end = indices.last().unwrap() + 1;
+        let last = *indices.last().unwrap();
 
         // Removing leaves never moves the number of leaves set
-        if end > self.tree.leaves_set() {
+        if last >= self.tree.leaves_set() {
             return Err(Report::msg("index to remove exceeds the leaves set"));
         }
+        let end = last + 1;
 
         // Positions of the span that are not removed keep their value
         let mut new_leaves = Vec::with_capacity(end - start);
